@@ -151,58 +151,67 @@ def r4(cx):
             for ai, nm in ((1, "reader"), (2, "writer")):
                 if not any(k == "call" and o is splits[0] for k, o in sl.origins(t.args[ai])): why.append("%s of handle() is not a half of this connection's stream" % nm)
     cx.check(not why, "C13.R4", "varlink:worker:reader-writer-are-this-stream", w.sp, "; ".join(sorted(set(why))), note_ok="(r, w) = stream.split(); handle(chain(unread, BufReader(r)), w, ..)")
-    # end of input leaves the loop
+    # end of input leaves the loop: no execution that saw fill_buf() fail or return an empty buffer comes back to handle()
     fb = w.calls("=fill_buf")
     if not fb: raise AnchorMissing("worker: fill_buf end-of-input test")
-    okk = False; detail = "no test for an empty fill_buf() result"
+    from vlib.cfg import enumerate_paths
+    from vlib.pathcond import literals
+    from vlib import absval
+    F = fb[0]
+    stops = {t.bb for t in hs}
+    limit = []
+    paths = enumerate_paths(cfg, F.target, lambda blk: blk.idx in stops or blk.term.kind == "return", du=du, on_limit=lambda: limit.append(1)) if F.target is not None else []
     slw = Slice(w, du)
-    def const_of(op):
-        if op.is_const: return op.cint()
-        vals = [o.cint() for k, o in slw.origins(op) if k == "const"]
-        return vals[0] if len(vals) == 1 and len(slw.origins(op)) == 1 else None
-    def from_fill_buf(op, depth=0):
-        for k, o in slw.origins(op):
-            if k == "call" and o in fb: return True
-            if k == "bin" and o.rv == "un" and depth < 4 and from_fill_buf(o.ops[0], depth + 1): return True
+    def from_F(op):
+        return op is not None and op.place is not None and any(k == "call" and o is F for k, o in slw.origins(op))
+    clos_all = [x for x in w.unit.bodies if x.promoted is None and x.parent in ([w.path] + [p for p, _ in getattr(w, "inlined", [])])]
+    def closure_tests_empty(t):
+        used = set()
+        for a in t.args:
+            if a.place is not None:
+                for k, d in du.value_defs(a.place.l):
+                    if k == "stmt" and d.rv == "agg" and isinstance(d.agg, dict) and d.agg.get("closure"): used.add(d.agg["closure"])
+        return any(x.path in used and (x.calls("=is_empty") or any(st.kind == "assign" and st.rv == "un" and st.op == "PtrMetadata" for st in x.stmts())) for x in clos_all)
+    def saw_end(p):
+        """did this path establish `fill_buf() failed or returned nothing`?"""
+        # (a) the Err variant of fill_buf()'s own result
+        for kind, b, x, st in absval.walk(w, du, cfg, p):
+            if kind == "term" and x.kind == "switch" and x.discr.place is not None:
+                c = switch_cond(w, du, x)
+                if c.kind == "discr" and c.place is not None and not c.place.p and any(k == "call" and o is F for k, o in slw.origins(c.place)):
+                    nxt = p[p.index(b) + 1] if p.index(b) + 1 < len(p) else None
+                    labs = [lab for lab, d in cfg.succ[b] if d == nxt]
+                    if labs and labs[0] == 1: return True
+        for l in literals(w, p):
+            if l.kind == "call":
+                n = l.obj.callee.name
+                if n == "is_empty" and l.truth and from_F(l.obj.args[0]): return True
+                if n == "map_or" and l.truth and l.obj.args[1].is_const and l.obj.args[1].cint() == 1 and from_F(l.obj.args[0]) and closure_tests_empty(l.obj): return True
+                if n == "is_ok_and" and not l.truth and from_F(l.obj.args[0]) and closure_tests_empty(l.obj): return True
+                if n == "is_err" and l.truth and from_F(l.obj.args[0]): return True
+                if n == "is_ok" and not l.truth and from_F(l.obj.args[0]): return True
+            elif l.kind == "bin" and l.obj.op in ("Eq", "Ne"):
+                a, b2 = l.obj.ops
+                def const_of(op):
+                    if op.is_const: return op.cint()
+                    og = slw.origins(op)
+                    vals = [o.cint() for k, o in og if k == "const"]
+                    return vals[0] if len(vals) == 1 and len(og) == 1 else None
+                za, zb = const_of(a) == 0, const_of(b2) == 0
+                zero = za != zb
+                other = b2 if za else a
+                def len_of_F(op, depth=0):
+                    for k, o in slw.origins(op):
+                        if k == "call" and o is F: return True
+                        if k == "bin" and o.rv == "un" and depth < 4 and len_of_F(o.ops[0], depth + 1): return True
+                    return False
+                if zero and len_of_F(other) and ((l.obj.op == "Eq") == l.truth): return True
         return False
-    for b in w.blocks:
-        if b.cleanup or b.term.kind != "switch": continue
-        c = switch_cond(w, du, b.term)
-        if c.kind == "bin" and c.op in ("Eq", "Ne"):
-            ca, cb = const_of(c.a), const_of(c.b)
-            if (ca == 0) == (cb == 0): continue
-            other = c.a if cb == 0 else c.b
-            if from_fill_buf(other):
-                te, fe = bool_edges(b.term, c)
-                empty = te if c.op == "Eq" else fe
-                again = [t for t in hs if t.bb in cfg.after(empty)]
-                okk = not again
-                detail = "after fill_buf() reported end of input the loop can call handle() again: a peer that hung up (e.g. in the middle of a message) keeps a worker busy forever and, with max_worker_threads such peers, no other connection is served"
-        elif c.kind == "call" and c.term.callee.name == "is_empty" and from_fill_buf(c.term.args[0]):
-            te, fe = bool_edges(b.term, c)
-            again = [t for t in hs if t.bb in cfg.after(te)]
-            okk = not again
-            detail = "after fill_buf() reported end of input the loop can call handle() again"
-        elif c.kind == "call" and c.term.callee.name in ("map_or", "is_ok_and", "is_err", "is_ok") and c.term.args and from_fill_buf(c.term.args[0]):
-            # combinator spellings of `Err(_) | Ok([])`: fill_buf().map_or(true, |b| b.is_empty()), !fill_buf().is_ok_and(|b| !b.is_empty())
-            t = c.term
-            clos = [x for x in w.unit.bodies if x.promoted is None and x.parent in ([w.path] + [p for p, _ in getattr(w, "inlined", [])])]
-            used = set()
-            for a in t.args:
-                if a.place is not None:
-                    for k, d in du.value_defs(a.place.l):
-                        if k == "stmt" and d.rv == "agg" and isinstance(d.agg, dict) and d.agg.get("closure"): used.add(d.agg["closure"])
-            tests_empty = any(x.path in used and (x.calls("=is_empty") or any(st.kind == "assign" and st.rv == "un" and st.op == "PtrMetadata" for st in x.stmts())) for x in clos)
-            te, fe = bool_edges(b.term, c)
-            eof_edge = None
-            if t.callee.name == "map_or" and t.args[1].is_const and t.args[1].cint() == 1 and tests_empty: eof_edge = te
-            elif t.callee.name == "is_ok_and" and tests_empty: eof_edge = fe
-            if eof_edge is not None:
-                again = [x for x in hs if x.bb in cfg.after(eof_edge)]
-                okk = not again
-                detail = "after fill_buf() reported end of input the loop can call handle() again"
-    # fill_buf error leaves as well
-    cx.check(okk, "C13.R4", "varlink:worker:eof-ends-the-job", "%s %s" % (fb[0].sp, w.path), detail, note_ok="Ok([]) -> break (and Err(_) -> break)")
+    again = [p for p in paths if p[-1] in stops and saw_end(p)]
+    ends = [p for p in paths if saw_end(p)]
+    okk = bool(ends) and not again and not limit
+    detail = ("after fill_buf() reported end of input the loop can call handle() again (e.g. blocks %s): a peer that hung up (e.g. in the middle of a message) keeps a worker busy forever and, with max_worker_threads such peers, no other connection is served" % again[0][:20]) if again else "no test for an empty fill_buf() result"
+    cx.check(okk, "C13.R4", "varlink:worker:eof-ends-the-job", "%s %s" % (fb[0].sp, w.path), detail, note_ok="%d paths see Err/empty and leave the loop" % len(ends))
 
 
 def r5(cx):
